@@ -15,7 +15,7 @@ use crate::rng::Rng;
 pub fn e3_components() -> Value {
     json!({
         "real": [
-            "watchexec-cli: Args parsing (clap) + the four normalise() steps, State, make_config (the whole action handler incl. on-busy logic, quit escalation, signal forwarding, spawn hook)",
+            "watchexec-cli: Args parsing (clap) + the four normalise() steps, State, run_watchexec() as the runtime's main future (H8: make_config with the whole action handler incl. on-busy logic, quit escalation, signal forwarding, spawn hook; WatchexecFilterer::new and its check_event on every event; runtime creation; the start-up event; main())",
             "watchexec lib: Watchexec runtime, action worker + debounce, signal source's event constructor",
             "watchexec-supervisor: job task, control queue, timers, tickets",
             "tokio 1.43.0 (vendored; only run-queue pick and select! start branch decided by the simulator)"
@@ -23,7 +23,7 @@ pub fn e3_components() -> Value {
         "stub": [
             "child processes (SimChild through hook H2)",
             "OS signal delivery (H4: the signal source's send_event is called directly), filesystem watcher (no paths watched: -w /dev/null; change events are queued as the fs source would)",
-            "run_watchexec()'s three start-up lines (initial empty urgent event unless --postpone) are replicated by the harness because that function also builds the real filterer and owns main()",
+            "ignore-file discovery (--no-discover-ignore is always passed: discovery walks the real filesystem on the blocking pool)",
             "stderr of the CLI (pointed at /dev/null)",
             "wall clock (virtual)"
         ]
